@@ -250,7 +250,11 @@ def run(ctx, R, tier):
     from ..report import Rules
     from . import c05
     R5 = Rules("C05")
-    c05.run(ctx, R5, tier)
+    try:
+        c05.run(ctx, R5, tier)
+    except AnalysisError as _shared_x:
+        # the other property's own anchors are gone on this tree: its check reports that; what it produced before is still shared
+        R.note("obligations shared from C05 are incomplete on this tree: %s" % _shared_x)
     for o in R5.obs:
         if o.key in ("C05-R3|handleRequest|error-reply-table", "C05-R4|_sendExceptionResponse|first-dumps-guarded", "C05-R4|_sendExceptionResponse|fallback-pyroerror"):
             R.add("C07-R3", o.key.split("|", 1)[1], o.desc, o.ok, o.loc, o.detail)
@@ -291,7 +295,11 @@ def run(ctx, R, tier):
     # ---------------------------------------------------------------- R7 (shared with C13-R4)
     from . import c13
     R13 = Rules("C13")
-    c13.run(ctx, R13, tier)
+    try:
+        c13.run(ctx, R13, tier)
+    except AnalysisError as _shared_x:
+        # the other property's own anchors are gone on this tree: its check reports that; what it produced before is still shared
+        R.note("obligations shared from C13 are incomplete on this tree: %s" % _shared_x)
     for o in R13.obs:
         if o.rule == "C13-R4":
             R.add("C07-R7", o.key.split("|", 1)[1], o.desc + " (the daemon sends no reply for communication errors and relies on the connection being dropped: otherwise the caller hangs)",
@@ -299,7 +307,11 @@ def run(ctx, R, tier):
     # a streamed item's exception reaches the caller as it is: the server's removal of the stream entry in the failure path cannot itself raise (shared with C10-R1)
     from . import c10 as _c10
     R10_ = Rules("C10")
-    _c10.run(ctx, R10_, tier)
+    try:
+        _c10.run(ctx, R10_, tier)
+    except AnalysisError as _shared_x:
+        # the other property's own anchors are gone on this tree: its check reports that; what it produced before is still shared
+        R.note("obligations shared from C10 are incomplete on this tree: %s" % _shared_x)
     for o in R10_.obs:
         if o.key in ("C10-R1|get_next_stream_item|removal-cannot-raise", "C10-R1|get_next_stream_item|handler-reraises"):
             R.add("C07-R6", "stream|" + o.key.split("|", 2)[2], o.desc + " (a KeyError from the bookkeeping would replace the generator's own exception / StopIteration at the caller)", o.ok, o.loc, o.detail)
